@@ -94,6 +94,15 @@ def render(conn, s, r, shape):
             t0, v, v, shape.get("iters", LONG_ITERS), v, t1, 100000 + r)
         return {"code": code, "out": t0 + "\n" + t1 + "\n", "err": "", "end": "value", "value": str(100000 + r),
                 "long": True}
+    if k == "biglong":
+        # thousands of small definitions (parse + load takes 100s of ms) followed by a bounded long loop
+        t0, t1 = tag(conn, s, r, 0), tag(conn, s, r, 1)
+        v = "w%d" % r
+        defs = " ".join("fun bg%s%d_%d(): Int { %d }" % (conn, r, i, i) for i in range(shape["ndefs"]))
+        code = '%s println("%s") let %s = 0 while %s < %d { %s += 1 } println("%s") %d' % (
+            defs, t0, v, v, shape.get("iters", LONG_ITERS), v, t1, 100000 + r)
+        return {"code": code, "out": t0 + "\n" + t1 + "\n", "err": "", "end": "value", "value": str(100000 + r),
+                "long": True}
     if k == "def":
         name = defname(conn, s, shape["n"])
         return {"code": "fun %s(): Int { %d }" % (name, 500000 + shape["n"]), "out": "", "err": "", "end": "none",
@@ -238,8 +247,12 @@ def _delay_spec(rng, profile):
     seed = rng.randrange(1 << 30)
     x = rng.random()
     if profile == "c31":
-        if x < 0.15:
+        if x < 0.12:
             return "seed=%d" % seed
+        if x < 0.37:
+            # widen the worker's dequeue .. eval.begin stretch (request parsing and loading)
+            return ("seed=%d;flag_reset=20..120;eval.begin=0..60;dequeued=0..20;interrupt.before_store=0..10;"
+                    "close.before_store=0..10" % seed)
         if x < 0.6:
             return ("seed=%d;dequeued=0..40;flag_reset=0..40;interrupt.before_store=0..40;close.before_store=0..40;"
                     "interrupt.after_store=0..15;eval.begin=0..25;*=0..8" % seed)
@@ -407,11 +420,35 @@ def _bystanders(g, target):
     return out
 
 
+def _pre_eval_stop(g, s):
+    """Stop request aimed at the worker's parse/load phase: a large source (or just a pipelined stop) without
+    waiting for any output; judged from the event log (rule pre-eval-window)."""
+    rng = g.rng
+    if rng.random() < 0.65:
+        shape = {"k": "biglong", "ndefs": rng.choice([1200, 2000, 3000])}
+    else:
+        shape = {"k": "long"}
+    r = g.eval_step(s, shape, load=(None,) if rng.random() < 0.25 else None)
+    g.steps.append(["sleep", rng.choice([0, 5, 20, 50, 100, 200])])
+    closing = rng.random() < 0.25 and len(g.open) > 1
+    if closing:
+        g.steps.append(["close", g.rid(), s])
+        g.open.remove(s)
+        g.closed.append(s)
+    else:
+        g.steps.append(["intr", g.rid(), s])
+    g.steps.append(["wait_done", r])
+    if not closing:
+        g.eval_step(s, _print_shape(rng))
+
+
 def _c31_scenario(g):
     rng = g.rng
     s = rng.choice(g.open)
     x = rng.random()
-    if x < 0.12:
+    if rng.random() < 0.16:
+        _pre_eval_stop(g, s)
+    elif x < 0.12:
         _bystanders(g, s)
         _interrupt_chatty(g, s)
         g.eval_step(s, _print_shape(rng))
@@ -611,7 +648,7 @@ class _Driver(threading.Thread):
                 c.send_raw(st[1].encode())
             elif op == "wait_done":
                 w = self.wid(st[1])
-                is_long = (self.reqs.get(w, {}).get("shape") or {}).get("k") == "long"
+                is_long = (self.reqs.get(w, {}).get("shape") or {}).get("k") in ("long", "biglong")
                 self._wait_done(w, "wait_done", LONG_WATCHDOG if is_long else None)
             elif op == "wait_out":
                 w = self.wid(st[1])
@@ -634,7 +671,7 @@ class _Driver(threading.Thread):
             self.order.append(w)
             self.sentinels[s] = w
             c.send({"op": "completions", "id": w, "session": sname, "prefix": "gdef_zz"})
-        pending_long = any((i.get("shape") or {}).get("k") == "long" and c.wait_done(w, 0) is None
+        pending_long = any((i.get("shape") or {}).get("k") in ("long", "biglong") and c.wait_done(w, 0) is None
                            for w, i in self.reqs.items())
         deadline = time.time() + (LONG_WATCHDOG if pending_long else WATCHDOG)
         # The sentinel's done proves (FIFO worker, ordered writer, ordered TCP stream) that everything sent
@@ -969,6 +1006,23 @@ def judge(case, obs):
         if watchdogs:
             inc.append("%s: %s" % (cname, "; ".join(watchdogs[:3])))
     v31.extend(_step_bound(obs))
+    status_by_wid = {}
+    has_exprs = set()       # evals with at least one top-level expression, i.e. at least one interpreter step
+    for cname, co in obs["conns"].items():
+        if co.get("msgs") is None:
+            continue
+        for w, info in co["reqs"].items():
+            sh = info.get("shape")
+            if info["kind"] in ("eval", "load") and sh:
+                if sh["k"] in ("long", "biglong", "call", "readcnt") or \
+                        (sh["k"] == "print" and render(cname, info["s"], info["r"], sh)["code"].strip()):
+                    has_exprs.add(w)
+        for m in co["msgs"]:
+            if nc.is_done(m) and "id" in m:
+                status_by_wid.setdefault(m["id"], nc.status_of(m))
+    hits, viol = _pre_eval_window(obs, status_by_wid, has_exprs)
+    facts["pre_eval_window"] = hits
+    v31.extend(viol)
     return {"c30": v30, "c31": v31, "inconclusive": inc, "facts": facts}
 
 
@@ -1130,6 +1184,72 @@ def _step_bound(obs):
                                  "eval_end_steps": f["steps"], "note": "eval ran on to its end"}))
                 break
     return out
+
+
+def _pre_eval_window(obs, status_by_wid, has_exprs):
+    """C31, logical (event log): a stop (interrupt / close) whose store comes after the worker's `flag_reset`
+    point of the cycle that handles eval E and is complete before E's `eval.begin` is pending when the eval
+    loop makes its first step, so E must end `interrupted`; a done without `interrupted` = the stop was lost
+    between dequeue and evaluation.  Order is proved by the global sequence numbers: reset -> flag_reset.seq <
+    before_store.seq -> store -> (after_store | next event of the reader thread).seq < eval.begin.seq."""
+    pts = _points(obs)
+    out = []
+    hits = 0
+    if not pts or not all("tid" in e for e in pts):
+        return hits, out
+    _, sess_tid = _thread_maps(pts)
+    by_thread = {}
+    for i, e in enumerate(pts):
+        by_thread.setdefault(_tkey(e), []).append(i)
+    # worker cycles: tid -> list of dict(wid, flag_reset, begin, end) (indices into pts)
+    cycles = {}
+    for t, idxs in by_thread.items():
+        cur = None
+        for i in idxs:
+            p = pts[i]["point"]
+            if p == "dequeued":
+                cur = {"wid": pts[i].get("extra"), "flag_reset": None, "begin": None, "end": None}
+                cycles.setdefault(t, []).append(cur)
+            elif cur is not None and p == "flag_reset" and cur["flag_reset"] is None:
+                cur["flag_reset"] = i
+            elif cur is not None and p == "eval.begin" and cur["begin"] is None:
+                cur["begin"] = i
+            elif cur is not None and p == "eval.end" and cur["end"] is None:
+                cur["end"] = i
+    last_dispatch = {}
+    for i, e in enumerate(pts):
+        p = e["point"]
+        if p == "dispatch":
+            last_dispatch[_tkey(e)] = e.get("extra", "").split(" ")
+            continue
+        if p not in ("interrupt.before_store", "close.before_store"):
+            continue
+        ct = _tkey(e)
+        d = last_dispatch.get(ct, [])
+        target = sess_tid.get((ct, d[2] if len(d) >= 3 else None))
+        if target is None:
+            continue
+        # first later event of the same reader thread: the store is complete by then
+        after = next((j for j in by_thread[ct] if j > i), None)
+        if after is None:
+            continue
+        for cyc in cycles.get(target, []):
+            if cyc["flag_reset"] is None or cyc["begin"] is None:
+                continue
+            if cyc["flag_reset"] < i and after < cyc["begin"]:
+                if cyc["wid"] not in has_exprs:
+                    break
+                hits += 1
+                st = status_by_wid.get(cyc["wid"])
+                if st is not None and "interrupted" not in st and "unknown-session" not in st:
+                    kind = "interrupt" if p.startswith("interrupt") else "close"
+                    out.append(("interrupt-lost:pre-eval-window",
+                                {"stop": kind, "stop_request": d[1] if len(d) > 1 else None, "eval": cyc["wid"],
+                                 "status": st, "flag_reset_seq": pts[cyc["flag_reset"]]["seq"],
+                                 "before_store_seq": e["seq"], "store_complete_by_seq": pts[after]["seq"],
+                                 "eval_begin_seq": pts[cyc["begin"]]["seq"]}))
+                break
+    return hits, out
 
 
 WORKER_POINTS = ("dequeued", "flag_reset", "eval.begin", "eval.end", "final_drain", "responses.sent")
